@@ -229,7 +229,8 @@ def body_family_(prog, key):
 
 PERIOD_SAMPLES = ["10s", "1m", "1h", "1d", "1w", "90m", "1h30m", "2w3d", "1d2h3m4s", "5m5m", "4s3m2h1d", "0s", "007s", "1w1w1w", "18446744073709551615s", "30500568904943w",
                   "", "10", "s", "m10", "10x", "10ms", "1hd", "2ww", "1h d", " 1h", "1h ", "10S", "1H", "+5s", "-5s", "1.5h", "1h30", "1h,30m", "1y", "ten s", "\u0661s",
-                  "18446744073709551616s", "99999999999999999999s", "18446744073709551615s1s", "30500568904943w1w", "30500568904944w", "307445734561825861m", "9223372036854775807s9223372036854775807s2s"]
+                  "18446744073709551616s", "99999999999999999999s", "18446744073709551615s1s", "30500568904943w1w", "30500568904944w", "307445734561825861m", "9223372036854775807s9223372036854775807s2s",
+                  "18446744073709551615s1s1s", "18446744073709551615s5m10s", "30500568904943w1w1s", "18446744073709551615s0s", "18446744073709551615s0s1s"]
 
 
 def period_oracle(t):
